@@ -89,6 +89,16 @@ def inplace_reform(params, group):
     rec(params[group])
 
 
+def inplace_function(functions, name):
+    """The caller assigns a reformed function into the dict it was handed."""
+    from vf.checks.c06 import modified
+
+    if name in functions and not getattr(functions[name], "__vf_modified__", False):
+        g = modified(functions[name])
+        g.__vf_modified__ = True
+        functions[name] = g
+
+
 def make_data(df, form):
     if form == "df":
         return df.copy()
@@ -154,6 +164,9 @@ def run_history(history):
             elif op["op"] == "reform_inplace":
                 p, f, d = slots[op["slot"]]
                 inplace_reform(p, op["group"])
+            elif op["op"] == "replace_function_inplace":
+                p, f, d = slots[op["slot"]]
+                inplace_function(f, op["function"])
             elif op["op"] == "vectorize":
                 p, f, d = slots[op["slot"]]
                 n = 0
@@ -172,6 +185,8 @@ def run_history(history):
                 if op.get("fresh_inplace"):  # replay alone: the same edits are made after set-up
                     for g in op["fresh_inplace"]:
                         inplace_reform(p, g)
+                for fname in op.get("fresh_functions", []):
+                    inplace_function(f, fname)
                 p, f = apply_reform(p, f, call.get("reform"))
                 df = build_population(call["pop"], d, p)
                 data = make_data(df, call["form"])
